@@ -1824,6 +1824,11 @@ func (p *Parser) evaluateFor(ctx context) (Statement, error) {
 				return nil, err
 			}
 			valueVarName = nextToken.Value()
+
+			// Index and value are two different variables.
+			if valueVarName == indexVarName {
+				return nil, p.atError(fmt.Sprintf("variable %s has already been defined", valueVarName), nextToken)
+			}
 		}
 		nextToken = p.eat()
 		hasNamedVar := len(valueVarName) > 0
